@@ -33,6 +33,7 @@ package main
 import (
 	"bufio"
 	"bytes"
+	"compress/gzip"
 	"context"
 	"encoding/json"
 	"errors"
@@ -103,6 +104,12 @@ type Case struct {
 	Headers    bool  `json:"headers"`
 	Retry      *int  `json:"retry"`
 	OptTimeout int64 `json:"opt_timeout"`
+	// a document parameter of pointer type (in *In) is passed as nil (json.Marshal sends null) instead of &In{}
+	NilBody bool `json:"nil_body"`
+	// srv: the server compresses the body (Content-Encoding: gzip) when the request allows it with
+	// Accept-Encoding: gzip, as a conforming server may; net/http asks for it and decompresses transparently,
+	// so the body the mapping has to work on is Body itself (not measured from the wire in these cases)
+	Gzip bool `json:"gzip"`
 }
 
 type ValObs struct {
@@ -221,6 +228,7 @@ type script struct {
 	via     int  // answer the first request with this status and a Location to the final answer
 	loop    bool // answer every request with status and a Location to itself
 	hang    bool // do not answer until released
+	gz      bool // compress the body when the request says Accept-Encoding: gzip
 	stall   bool // send status, headers and body, flush, then wait until released
 	release chan struct{}
 }
@@ -257,6 +265,17 @@ func handler(w http.ResponseWriter, r *http.Request) {
 	}
 	if s.stall {
 		w.Header().Set("Content-Length", strconv.Itoa(len(s.body)+64))
+	}
+	if s.gz && s.body != "" && strings.Contains(r.Header.Get("Accept-Encoding"), "gzip") {
+		var buf bytes.Buffer
+		zw := gzip.NewWriter(&buf)
+		io.WriteString(zw, s.body)
+		zw.Close()
+		w.Header().Set("Content-Encoding", "gzip")
+		w.Header().Set("Content-Length", strconv.Itoa(buf.Len()))
+		w.WriteHeader(s.status)
+		w.Write(buf.Bytes())
+		return
 	}
 	w.WriteHeader(s.status)
 	io.WriteString(w, s.body)
@@ -333,6 +352,9 @@ func (st *state) mw() middleware.Middleware {
 				data, rerr := io.ReadAll(resp.Body)
 				st.rb = &recBody{data: data, fault: rerr, inner: resp.Body}
 				s := string(data)
+				if c.Gzip {
+					s = c.Body // what the server sent under the content coding
+				}
 				st.deliv = &s
 				resp.Body = st.rb
 				st.resp = resp
@@ -458,7 +480,7 @@ func runCase(c Case) (o Obs) {
 	st.cancel = cancel
 	var sc *script
 	if c.Mode == "srv" {
-		sc = &script{status: int(c.Status), body: c.Body, via: c.Via}
+		sc = &script{status: int(c.Status), body: c.Body, via: c.Via, gz: c.Gzip}
 	}
 	clientTimeout := time.Duration(0)
 	nilCtx := false
@@ -551,12 +573,21 @@ func runCase(c Case) (o Obs) {
 			}
 		default:
 			args[i] = reflect.Zero(pt)
-			if c.Fault == "marshal" && pt.Kind() == reflect.Struct {
-				v := reflect.New(pt).Elem()
-				if f := v.FieldByName("F"); f.IsValid() && f.Kind() == reflect.Float64 {
+			st_ := pt
+			isPtr := pt.Kind() == reflect.Ptr && pt.Elem().Kind() == reflect.Struct
+			if isPtr {
+				st_ = pt.Elem()
+			}
+			if st_.Kind() == reflect.Struct && (c.Fault == "marshal" || (isPtr && !c.NilBody)) {
+				pv := reflect.New(st_)
+				if f := pv.Elem().FieldByName("F"); c.Fault == "marshal" && f.IsValid() && f.Kind() == reflect.Float64 {
 					f.SetFloat(math.NaN())
 				}
-				args[i] = v
+				if isPtr {
+					args[i] = pv
+				} else {
+					args[i] = pv.Elem()
+				}
 			}
 		}
 	}
